@@ -14,11 +14,14 @@
 (*     that reads from it joins its clock (the scheduler is sequentially    *)
 (*     consistent, so a load reads the latest store)                        *)
 (*   - thread creation and join                                             *)
+(*   - fences: a release fence makes the later relaxed stores / RMWs of the  *)
+(*     thread publish the clock it had at the fence (fr); an acquire fence   *)
+(*     joins what the earlier relaxed loads / RMWs of the thread read (fa)   *)
 (* Vector clocks are exactly the happens-before relation of the recorded    *)
 (* execution: no false positives.                                           *)
 (***************************************************************************)
 EXTENDS TraceBase
-VARIABLES l, vc, rel, endc, lastw, reads, raced, mute
+VARIABLES l, vc, rel, endc, lastw, reads, raced, mute, fr, fa
 hv == <<vc, rel, endc, lastw, reads, raced, mute>>
 MaxT == 8
 TT == 0..MaxT
@@ -31,7 +34,7 @@ Put(f, k, v) == [x \in DOMAIN f \cup {k} |-> IF x = k THEN v ELSE f[x]]
 Tick(t) == [vc EXCEPT ![t][t] = @ + 1]
 
 VC0 == [t \in TT |-> [u \in TT |-> IF u = t THEN 1 ELSE 0]]
-TInit == l = 1 /\ vc = VC0 /\ rel = <<>> /\ endc = <<>> /\ lastw = <<>> /\ reads = <<>> /\ raced = {} /\ mute = FALSE /\ TLCSet(1, 0)
+TInit == l = 1 /\ vc = VC0 /\ rel = <<>> /\ endc = <<>> /\ lastw = <<>> /\ reads = <<>> /\ raced = {} /\ mute = FALSE /\ fr = [t \in TT |-> Zero] /\ fa = [t \in TT |-> Zero] /\ TLCSet(1, 0)
 
 Acq(m) == m \in {1, 2, 4, 5}
 Rel(m) == m \in {3, 4, 5}
@@ -72,6 +75,13 @@ TNext ==
     /\ l' = l + 1
     /\ LET e == Tr[l]
            t == IF e.t \in TT THEN e.t ELSE 0 IN
+       /\ fr' = IF e.k = "reset" THEN [u \in TT |-> Zero]
+                ELSE IF e.k = "fence" /\ Rel(e.m) THEN [fr EXCEPT ![t] = IF Acq(e.m) THEN Join(vc[t], fa[t]) ELSE vc[t]] ELSE fr
+       /\ fa' = IF e.k = "reset" THEN [u \in TT |-> Zero]
+                ELSE IF (e.k \in {"ald", "arm"} \/ e.k = "cas") /\ ~Acq(e.m) THEN [fa EXCEPT ![t] = Join(@, Get(rel, Key(e)))]
+                ELSE IF e.k = "fence" /\ Acq(e.m) THEN [fa EXCEPT ![t] = Zero] ELSE fa
+    /\ LET e == Tr[l]
+           t == IF e.t \in TT THEN e.t ELSE 0 IN
        CASE e.k = "reset" ->
               /\ vc' = VC0 /\ rel' = <<>> /\ endc' = <<>> /\ lastw' = <<>> /\ reads' = <<>> /\ raced' = {}
               \* wrappers constructed with locking disabled promise nothing about races
@@ -94,22 +104,26 @@ TNext ==
               /\ vc' = IF Acq(e.m) THEN AcquireFrom(t, Key(e)) ELSE vc
               /\ UNCHANGED <<rel, endc, lastw, reads, raced, mute>>
          [] e.k = "ast" ->
-              /\ rel' = IF Rel(e.m) THEN Put(rel, Key(e), vc[t]) ELSE Put(rel, Key(e), Zero)
+              /\ rel' = IF Rel(e.m) THEN Put(rel, Key(e), vc[t]) ELSE Put(rel, Key(e), fr[t])
               /\ vc' = IF Rel(e.m) THEN Tick(t) ELSE vc
               /\ UNCHANGED <<endc, lastw, reads, raced, mute>>
          [] e.k = "arm" \/ (e.k = "cas" /\ e.u = 1) ->
               LET v1 == IF Acq(e.m) THEN AcquireFrom(t, Key(e)) ELSE vc IN
-              /\ rel' = IF Rel(e.m) THEN Put(rel, Key(e), Join(Get(rel, Key(e)), v1[t])) ELSE rel
+              /\ rel' = IF Rel(e.m) THEN Put(rel, Key(e), Join(Get(rel, Key(e)), v1[t])) ELSE Put(rel, Key(e), Join(Get(rel, Key(e)), fr[t]))
               /\ vc' = IF Rel(e.m) THEN [v1 EXCEPT ![t][t] = @ + 1] ELSE v1
               /\ UNCHANGED <<endc, lastw, reads, raced, mute>>
          [] e.k = "cas" /\ e.u = 0 ->
               /\ vc' = IF Acq(e.m) THEN AcquireFrom(t, Key(e)) ELSE vc
+              /\ UNCHANGED <<rel, endc, lastw, reads, raced, mute>>
+         [] e.k = "fence" ->
+              /\ vc' = LET v1 == IF Acq(e.m) THEN [vc EXCEPT ![t] = Join(@, fa[t])] ELSE vc IN
+                       IF Rel(e.m) THEN [v1 EXCEPT ![t][t] = @ + 1] ELSE v1
               /\ UNCHANGED <<rel, endc, lastw, reads, raced, mute>>
          [] e.k \in WriteKinds -> Commit(Acc(Cur, t, Key(e), TRUE), t, e.k) /\ UNCHANGED <<vc, rel, endc>>
          [] e.k \in ReadKinds -> Commit(Acc(Cur, t, Key(e), FALSE), t, e.k) /\ UNCHANGED <<vc, rel, endc>>
          [] e.k \in CopyKinds -> Commit(Acc(Acc(Cur, t, Key(e), TRUE), t, <<e.o, e.u>>, FALSE), t, e.k) /\ UNCHANGED <<vc, rel, endc>>
          [] OTHER -> UNCHANGED hv
     /\ Mark(l)
-TSpec == TInit /\ [][TNext]_<<l, hv>>
+TSpec == TInit /\ [][TNext]_<<l, hv, fr, fa>>
 Accepted == IF TLCGet(1) = Len(Tr) THEN TRUE ELSE Rejected(TLCGet(1) + 1)
 =============================================================================
